@@ -27,6 +27,23 @@ def run(ctx):
                            'a following task may start from)', 'C02_task_histories', only=[o for o in _ir.OPTS if o not in failed])
         _ir.trace_inclusion(ctx, meta)
         _ir.state_replay(ctx, meta)
+    # the property is also observed at History.best_agent[t]: the IR theorem is about the state handed to history.dump; that dump/_parse store it
+    # BY VALUE at that moment (so that a record cannot change afterwards) is the T4-history descriptor shared with C04/C12/C19
+    try:
+        from props import C19
+        errs19 = C19.regenerate()[2]
+        for e in errs19 or []:
+            ctx.oblige('T4-history translation of %s' % e.get('item'), False, '%s:%s: %s' % (e.get('file'), e.get('line'), e.get('msg')))
+        ctx.oblige('T4-history: History.dump/_parse have the recognised by-value shape (Gen/HistoryDescr.v regenerated), so a recorded best agent is the state at dump time',
+                   not errs19)
+        if errs19:
+            before = len(ctx.violations)
+            _ir.monitor_data(ctx, focus='BHA')
+            if any(v['found_input'] for v in ctx.violations[before:]):
+                ctx.explain('T4-history')
+    except Exception as ex:  # noqa: BLE001
+        ctx.oblige('T4-history: History.dump/_parse have the recognised by-value shape (Gen/HistoryDescr.v regenerated), so a recorded best agent is the state at dump time',
+                   False, repr(ex))
     ctx.cov['rule'] = ('theorem for all boxes/objectives/oracles/iteration counts per regenerated program; run monitor: best fitness versus the minimum of the '
                        'logged objective values at every record and at return, objectives with ties/plateaus/boundary optima')
     _ir.monitor(ctx)
